@@ -13,6 +13,10 @@
    macro group, enum trait) and the float/double byte widths are regenerated (Gen: *_write_bits/_read_bits/_size_bits)
    and feed sk_encode/dec_scalar/sk_size; SEProofs.sk_encode_spec/sk_size_spec/dec_scalar_spec pin them to the widths
    the C++ value ranges need, so narrowing one (e.g. the enum trait to 32 bits) breaks the translator or these lemmas.
+   The test guarding the pointee allocation in unique_ptr.h / shared_ptr.h is regenerated too (uptr_guard_kind /
+   sptr_guard_kind feed SEModel.ptr_guard; SEProofs.ptr_guard_eq pins it to "a byte is readable"):
+   c11_roundtrip_unlimited_scalar_ptr / _string_ptr state that a non-null top-level smart pointer survives a stream
+   WITHOUT limit (BytesUntilLimit() is -1 there).
    Proved for ALL values of ALL types of the universe (incl. sets, maps):  c11_size_exact.
    Proved for ALL byte strings and ALL types (incl. sets, maps, ill-formed schemas), debug and NDEBUG:
    c11_parse_terminates (flat array / string / stream under an enclosing limit: the result is never Hang) and
